@@ -54,6 +54,8 @@ class Profile:
         self.expr_depth = 2
         self.p_model_type = 0.4
         self.p_diamond = 0.25
+        self.p_cprim_multi = 0.35  # a constrained primitive with two parents
+        self.p_cmp_of_cmp = 0.08  # comparison whose operand is a comparison
         self.p_docstrings = 0.3
         self.n_pattern_fns = (0, 3)
         self.n_transpilable_fns = (0, 2)
@@ -130,6 +132,7 @@ class GCPrim:
     def __init__(self, name: str, base: str, prim: str):
         self.name = name
         self.base = base  # primitive name or another cprim
+        self.extra_bases: List[str] = []  # further constrained primitives of the same primitive
         self.prim = prim
         self.invariants: List[Tuple[str, str]] = []
         self.doc: Optional[str] = None
@@ -291,6 +294,7 @@ class Generator:
             pieces = [
                 "[a-z]", "[A-Z]", "[0-9]", "[a-zA-Z_]", "x", "ab", "-", "\\.", "[^a]",
                 "(a|b)", "(ab|cd|e)", "[a-c0-2]", "\\x41", "\\u00e9", ".", "[\\-_]",
+                '"', "'", "[\"']", "/", "#", "\\x4A",
             ]
             if self.p.astral_patterns:
                 pieces += ["\\U0001f600", "[\\U00010000-\\U0010ffff]", "[\\ud7ff-\\ue000]"[:0] or "é"]
@@ -319,7 +323,21 @@ class Generator:
         for _ in range(self.rint(self.p.n_pattern_fns)):
             name = "matches_" + self.fresh("", False)
             pattern = self.gen_pattern()
-            if self.rng.random() < 0.3 and not self.p.simple_patterns:
+            r = self.rng.random()
+            if r < 0.12 and not self.p.simple_patterns:
+                # variables interpolated in the middle and twice, one built from the other
+                inner = self.fstring_src(pattern[1:-1])
+                body = (
+                    f'    word = "[a-z]+"\n'
+                    f'    pair = f"{{word}}-{{word}}"\n'
+                    f'    pattern = f"^({{pair}}|{inner}){{word}}?$"\n'
+                    f"    return match(pattern, text) is not None"
+                )
+                pattern = "^([a-z]+-[a-z]+|" + pattern[1:-1] + ")[a-z]+?$"
+                pattern = pattern[:-3] + "([a-z]+)?$"
+                body = body.replace("{word}?$", "({word})?$")
+                self.m.feature("pattern-with-nested-fstring-values")
+            elif r < 0.3 and not self.p.simple_patterns:
                 body = (
                     f'    prefix = "[a-z]"\n'
                     f'    pattern = f"^{{prefix}}{self.fstring_src(pattern[1:-1])}$"\n'
@@ -342,9 +360,16 @@ class Generator:
             if kind == "int":
                 expr = self.rng.choice(
                     ["value > 0", "value >= 10 and value < 100", "not (value == 3)",
-                     "value + 1 > 5", "0 <= value"]
+                     "value + 1 > 5", "0 <= value",
+                     "=shifted = value - 2\n    return shifted > 0 and shifted < 50",
+                     "=positive = value > 0\n    small = value < 10\n    return positive and small",
+                     "=limit = 7\n    return value - (limit - 2) >= 0"]
                 )
-                fn = GFunc(name, "transpilable", [("value", "int")], f"    return {expr}")
+                if expr.startswith("="):
+                    self.m.feature("function-with-local-variables")
+                    fn = GFunc(name, "transpilable", [("value", "int")], f"    {expr[1:]}")
+                else:
+                    fn = GFunc(name, "transpilable", [("value", "int")], f"    return {expr}")
                 fn.arg_types = [T("prim", "int")]
             elif kind == "float":
                 expr = self.rng.choice(["value > 0.5", "value <= 100.0", "value >= 0.0 and value <= 1.0"])
@@ -353,9 +378,15 @@ class Generator:
             else:
                 expr = self.rng.choice(
                     ["len(text) > 2", 'text == "ok"', 'len(text) >= 1 and len(text) <= 5',
-                     'text != "bad" or len(text) == 0']
+                     'text != "bad" or len(text) == 0',
+                     "=size = len(text)\n    return size >= 1 and size <= 6",
+                     '=expected = "ok"\n    return text == expected or len(text) > 3']
                 )
-                fn = GFunc(name, "transpilable", [("text", "str")], f"    return {expr}")
+                if expr.startswith("="):
+                    self.m.feature("function-with-local-variables")
+                    fn = GFunc(name, "transpilable", [("text", "str")], f"    {expr[1:]}")
+                else:
+                    fn = GFunc(name, "transpilable", [("text", "str")], f"    return {expr}")
                 fn.arg_types = [T("prim", "str")]
             self.m.funcs.append(fn)
         for _ in range(self.rint(self.p.n_impl_fns)):
@@ -445,7 +476,18 @@ class Generator:
         rng = self.rng
         for _ in range(self.rint(self.p.n_cprims)):
             name = self.fresh("", True)
-            if self.m.cprims and rng.random() < 0.4:
+            pairs = [
+                (a, b) for i, a in enumerate(self.m.cprims) for b in self.m.cprims[i + 1:]
+                if a.prim == b.prim and not self._cprim_related(a, b)
+            ]
+            if pairs and self.p.p_cprim_multi and rng.random() < self.p.p_cprim_multi:
+                first, second = rng.choice(pairs)
+                if rng.random() < 0.5:
+                    first, second = second, first
+                cp = GCPrim(name, first.name, first.prim)
+                cp.extra_bases.append(second.name)
+                self.m.feature("cprim-several-parents")
+            elif self.m.cprims and rng.random() < 0.4:
                 parent = rng.choice(self.m.cprims)
                 cp = GCPrim(name, parent.name, parent.prim)
                 self.m.feature("cprim-chain")
@@ -466,6 +508,21 @@ class Generator:
             if rng.random() < self.p.p_docstrings:
                 cp.doc = self.docstring()
             self.m.cprims.append(cp)
+
+    def _cprim_ancestors(self, cp: GCPrim) -> List[str]:
+        found: List[str] = []
+        by_name = {c.name: c for c in self.m.cprims}
+        todo = [cp.base] + list(cp.extra_bases)
+        while todo:
+            name = todo.pop()
+            if name in by_name and name not in found:
+                found.append(name)
+                todo.extend([by_name[name].base] + list(by_name[name].extra_bases))
+        return found
+
+    def _cprim_related(self, a: GCPrim, b: GCPrim) -> bool:
+        """One is an ancestor of the other (Python refuses such a base list: MRO)."""
+        return a.name in self._cprim_ancestors(b) or b.name in self._cprim_ancestors(a)
 
     # -- classes ---------------------------------------------------------------
     def gen_classes(self) -> None:
@@ -1024,6 +1081,10 @@ class Generator:
         if self.p.schema_invariants_only:
             return leaf()
         r = rng.random()
+        if self.p.p_cmp_of_cmp and rng.random() < self.p.p_cmp_of_cmp:
+            made = self.cmp_of_cmp(cls)
+            if made is not None:
+                return made
         if r < 0.55 or depth <= 0:
             return leaf()
         a, b = self.paren(leaf()), self.paren(leaf())
@@ -1038,6 +1099,36 @@ class Generator:
             return f"not {a} or {b}"
         self.m.feature("not")
         return f"not {a}"
+
+    def cmp_of_cmp(self, cls: GClass) -> Optional[str]:
+        """``(a < b) == flag`` / ``(a < b) != (c >= d)``: the grouping decides the verdict."""
+        rng = self.rng
+
+        def plain(t: T) -> Optional[str]:
+            if t.kind == "prim":
+                return t.name
+            return "list" if t.kind == "list" else None
+
+        props = [(p, plain(p.type)) for p in cls.all_props]
+        flags = [p for p, k in props if k == "bool"]
+        others = [(p, k) for p, k in props if k in ("int", "str", "bytearray", "list")]
+        if not others:
+            return None
+
+        def comparison() -> str:
+            p, k = rng.choice(others)
+            if k == "int":
+                return f"self.{p.name} {rng.choice(CMP)} {rng.choice([0, 1, 2, 5])}"
+            return self.len_cmp(f"self.{p.name}")
+
+        op = rng.choice(["==", "!="])
+        self.m.feature("comparison-of-comparison")
+        if flags and rng.random() < 0.6:
+            flag = f"self.{rng.choice(flags).name}"
+            if rng.random() < 0.5:
+                return f"({comparison()}) {op} {flag}"
+            return f"{flag} {op} ({comparison()})"
+        return f"({comparison()}) {op} ({comparison()})"
 
     # -- rendering -------------------------------------------------------------------
     def render(self) -> str:
@@ -1068,7 +1159,7 @@ class Generator:
         for cp in m.cprims:
             for expr, desc in cp.invariants:
                 out.append(f"@invariant(lambda self: {expr}, {self.str_literal(desc)})")
-            out.append(f"class {cp.name}({cp.base}, DBC):")
+            out.append(f"class {cp.name}({', '.join([cp.base] + list(cp.extra_bases))}, DBC):")
             out.append(f'    """{cp.doc}"""' if cp.doc else "    pass")
             out.append("")
             out.append("")
